@@ -27,4 +27,103 @@ theorem notIn_self : ∀ (xs : List (String × String)), notIn xs xs = []
     simp only [notIn, List.contains_cons, BEq.rfl, Bool.true_or, ↓reduceIte, List.erase_cons_head]
     exact notIn_self xs
 
+/-! ### the client's merge on one object: `setKeys` restores the plain object
+
+`view R kvs`: the object `kvs` with every entry whose key is not (yet) in `R` still `null` - what the initial
+payload holds (`R` = the keys that were not deferred) and what it becomes as groups arrive. -/
+
+def view (R : String → Bool) (kvs : List (String × Out)) : List (String × Out) :=
+  kvs.map fun e => if R e.1 then e else (e.1, Out.null)
+
+theorem view_keys (R : String → Bool) (kvs : List (String × Out)) :
+    (view R kvs).map (·.1) = kvs.map (·.1) := by
+  simp only [view, List.map_map]
+  apply List.map_congr_left
+  intro e _
+  simp only [Function.comp]
+  split <;> rfl
+
+theorem nodup_map_inj {α β : Type} (f : α → β) : ∀ (l : List α), (l.map f).Nodup →
+    ∀ a ∈ l, ∀ b ∈ l, f a = f b → a = b
+  | [], _, a, ha, _, _, _ => by cases ha
+  | x :: rest, hnd, a, ha, b, hb, hab => by
+    simp only [List.map_cons, List.nodup_cons, List.mem_map, not_exists, not_and] at hnd
+    rcases List.mem_cons.mp ha with rfl | ha' <;> rcases List.mem_cons.mp hb with rfl | hb'
+    · rfl
+    · exact absurd hab.symm (hnd.1 b hb')
+    · exact absurd hab (hnd.1 a ha')
+    · exact nodup_map_inj f rest hnd.2 a ha' b hb' hab
+
+theorem view_any_key (R : String → Bool) (kvs : List (String × Out)) (k : String) :
+    (view R kvs).any (·.1 == k) = kvs.any (·.1 == k) := by
+  have h := view_keys R kvs
+  have : ∀ l : List (String × Out), l.any (·.1 == k) = (l.map (·.1)).any (· == k) := by
+    intro l; induction l with
+    | nil => rfl
+    | cons a t ih => simp [ih]
+  rw [this, this, h]
+
+/-- one arriving key/value pair that the plain object holds: exactly that entry is restored -/
+theorem setKeys_one (R : String → Bool) (kvs : List (String × Out)) (hnd : (kvs.map (·.1)).Nodup)
+    (k : String) (v : Out) (hm : (k, v) ∈ kvs) :
+    setKeys (view R kvs) [(k, v)] = view (fun x => R x || x == k) kvs := by
+  have hany : (view R kvs).any (·.1 == k) = true := by
+    rw [view_any_key]
+    exact List.any_eq_true.mpr ⟨(k, v), hm, by simp⟩
+  simp only [setKeys, hany, ↓reduceIte]
+  -- pointwise on the entries of `kvs`
+  simp only [view, List.map_map]
+  apply List.map_congr_left
+  intro e he
+  simp only [Function.comp]
+  by_cases hk : e.1 = k
+  · -- the entry with this key is `(k, v)` itself (keys are distinct)
+    have heq : e = (k, v) := by
+      exact nodup_map_inj (·.1) kvs hnd e he (k, v) hm (by simpa using hk)
+    subst heq
+    by_cases hr : R k = true <;> simp [hr]
+  · have hk' : (e.1 == k) = false := by simpa using hk
+    by_cases hr : R e.1 = true
+    · simp [hr, hk']
+    · have hr' : R e.1 = false := by simpa using hr
+      simp [hr', hk']
+
+/-- a whole group's pairs -/
+theorem setKeys_group (kvs : List (String × Out)) (hnd : (kvs.map (·.1)).Nodup) :
+    ∀ (upd : List (String × Out)) (R : String → Bool), (∀ kv ∈ upd, kv ∈ kvs) →
+      setKeys (view R kvs) upd = view (fun x => R x || upd.any (·.1 == x)) kvs
+  | [], R, _ => by simp [setKeys]
+  | (k, v) :: rest, R, h => by
+    have h1 := setKeys_one R kvs hnd k v (h (k, v) (by simp))
+    have hstep : setKeys (view R kvs) ((k, v) :: rest) = setKeys (setKeys (view R kvs) [(k, v)]) rest := by
+      simp [setKeys]
+    rw [hstep, h1, setKeys_group kvs hnd rest _ (fun kv hkv => h kv (by simp [hkv]))]
+    congr 1
+    funext x
+    simp only [List.any_cons, Bool.or_assoc]
+    congr 2
+    exact Bool.eq_iff_iff.mpr ⟨fun hx => by simpa using (by simpa using hx : x = k).symm,
+      fun hx => by simpa using (by simpa using hx : k = x).symm⟩
+
+/-- every group, in any arrival order -/
+theorem setKeys_groups (kvs : List (String × Out)) (hnd : (kvs.map (·.1)).Nodup) :
+    ∀ (groups : List (List (String × Out))) (R : String → Bool), (∀ g ∈ groups, ∀ kv ∈ g, kv ∈ kvs) →
+      groups.foldl setKeys (view R kvs) = view (fun x => R x || groups.any (fun g => g.any (·.1 == x))) kvs
+  | [], R, _ => by simp
+  | g :: rest, R, h => by
+    simp only [List.foldl_cons]
+    rw [setKeys_group kvs hnd g R (h g (by simp)),
+      setKeys_groups kvs hnd rest _ (fun g' hg' => h g' (by simp [hg']))]
+    congr 1
+    funext x
+    simp [Bool.or_assoc]
+
+theorem view_all (R : String → Bool) (kvs : List (String × Out)) (h : ∀ e ∈ kvs, R e.1 = true) :
+    view R kvs = kvs := by
+  simp only [view]
+  conv => rhs; rw [← List.map_id kvs]
+  apply List.map_congr_left
+  intro e he
+  simp [h e he]
+
 end GqlgenVerif.DeferSpec
